@@ -383,6 +383,7 @@ type c11case struct {
 	fidx   int     // which file of pkg the text replaces (-1: added as an extra file)
 	name   string  // file name given to the tool-chain
 	src    []byte
+	cause  string // set when the accepted package uses a feature cgen is known not to support
 }
 
 func (c *c11case) extra() map[string]interface{} {
@@ -684,6 +685,24 @@ func c11gccClass(stderr string, emitted []byte) string {
 					}
 				}
 				tok := string(l[a0:b0])
+				if tok == "." || (tok == "-" && b0 < len(l) && l[b0] == '>') {
+					// a member access: name the member
+					for b0 < len(l) && !c11isIdent(l[b0]) {
+						b0++
+					}
+					a0 = b0
+					for b0 < len(l) && c11isIdent(l[b0]) {
+						b0++
+					}
+					if a0 < b0 {
+						tok = "." + string(l[a0:b0])
+					}
+				}
+				if tok0 := strings.TrimPrefix(tok, "."); tok0 != tok {
+					if m := c11reCVarID.FindStringSubmatch(tok0); m != nil {
+						tok = "." + m[1] + "*"
+					}
+				}
 				if m := c11reCVarID.FindStringSubmatch(tok); m != nil {
 					tok = m[1] + "*"
 				} else if c11reCPkgID.MatchString(tok) && !strings.HasPrefix(strings.ToLower(tok), "wuffs_base__") {
@@ -794,6 +813,11 @@ func (l *c11leg2) run(c *c11case, always bool) string {
 		gc := c11gccClass(gerr, out)
 		m := ex()
 		m["gcc_stderr_head"] = vk.Trunc([]byte(gerr), 1500)
+		if c.cause != "" {
+			// One signature for the whole feature, whatever gcc trips over first.
+			m["gcc_error_class"] = gc
+			gc = c.cause
+		}
 		rc.ViolateCase("emitted-c-rejected:"+gc, fmt.Sprintf("gcc rejects the C that wuffs-c emitted for an accepted package (%s %s): %s", c.kind, c.name, gc), c.phase, c.idx, m)
 		return "emitted-rejected"
 	}
@@ -947,6 +971,16 @@ func (e *c11env) exec(c *c11case, alwaysLeg2 bool) (reached string) {
 		return class("check", c11errClass(err.Error()))
 	}
 	rc.Count("accepted_"+c.family, 1)
+	for _, f := range files {
+		for _, n := range f.TopLevelDecls() {
+			if n.Kind() == a.KStruct && !n.AsStruct().Classy() {
+				c.cause = "non-classy-struct"
+			}
+		}
+	}
+	if c.cause != "" {
+		rc.Count("accepted_with_"+c.cause, 1)
+	}
 	out := "no-leg2"
 	if e.leg2 != nil {
 		out = e.leg2.run(c, alwaysLeg2)
@@ -2081,10 +2115,6 @@ func c11setup(rc *vk.Rec) *c11env {
 		return nil
 	}
 	e.leg2 = c11newLeg2(rc)
-	if rc.Shard == 0 {
-		rc.Count("corpus_files", int64(len(e.corp.files)))
-		rc.Count("corpus_packages", int64(len(e.corp.pkgs)))
-	}
 	go c11watch()
 	return e
 }
@@ -2133,6 +2163,10 @@ func C11D(rc *vk.Rec) {
 		return
 	}
 	cp := e.corp
+	if rc.Shard == 0 {
+		rc.Count("corpus_files", int64(len(cp.files)))
+		rc.Count("corpus_packages", int64(len(cp.pkgs)))
+	}
 
 	// every std package and hello-wuffs-c, unmutated, through both legs
 	phase := "orig"
@@ -2172,10 +2206,10 @@ func C11D(rc *vk.Rec) {
 
 	// hand-written edge files, verbatim and with token-level edits
 	phase = "edge"
-	e.budget("edge", 4, 2, 200, 100)
+	e.budget("edge", 4, 2, 150, 60)
 	per := 3
 	if rc.Thorough() {
-		per = 60
+		per = 40
 	}
 	for i, ed := range c11edges {
 		if i%rc.NShards != rc.Shard {
@@ -2211,7 +2245,7 @@ func C11D(rc *vk.Rec) {
 
 	// a few small files cut at every token boundary (exhaustive)
 	phase = "trunc"
-	e.budget("trunc", 6, 3, 100, 50)
+	e.budget("trunc", 4, 2, 100, 50)
 	n := int64(0)
 	for _, f := range cp.small {
 		off := 0
@@ -2246,8 +2280,8 @@ func C11D(rc *vk.Rec) {
 	rc.Finish()
 
 	phase = "deep"
-	e.budget("deep", 3, 2, 150, 60)
-	for idx := int64(0); idx < int64(rc.N(900, 40000)); idx++ {
+	e.budget("deep", 3, 2, 100, 40)
+	for idx := int64(0); idx < int64(rc.N(800, 30000)); idx++ {
 		if rc.SkipCase(phase, idx) {
 			continue
 		}
@@ -2268,8 +2302,8 @@ func C11D(rc *vk.Rec) {
 	rc.Finish()
 
 	phase = "lit"
-	e.budget("lit", 3, 2, 150, 60)
-	for idx := int64(0); idx < int64(rc.N(600, 20000)); idx++ {
+	e.budget("lit", 3, 2, 100, 40)
+	for idx := int64(0); idx < int64(rc.N(500, 15000)); idx++ {
 		if rc.SkipCase(phase, idx) {
 			continue
 		}
@@ -2300,8 +2334,8 @@ func C11(rc *vk.Rec) {
 	cp := e.corp
 
 	phase := "bytes"
-	e.budget("bytes", 2, 1, 60, 30)
-	for idx := int64(0); idx < int64(rc.N(2500, 150000)); idx++ {
+	e.budget("bytes", 2, 1, 40, 15)
+	for idx := int64(0); idx < int64(rc.N(2200, 100000)); idx++ {
 		if rc.SkipCase(phase, idx) {
 			continue
 		}
@@ -2321,8 +2355,8 @@ func C11(rc *vk.Rec) {
 	rc.Finish()
 
 	phase = "tok"
-	e.budget("tok", 6, 3, 400, 150)
-	for idx := int64(0); idx < int64(rc.N(9000, 600000)); idx++ {
+	e.budget("tok", 5, 3, 250, 100)
+	for idx := int64(0); idx < int64(rc.N(8000, 400000)); idx++ {
 		if rc.SkipCase(phase, idx) {
 			continue
 		}
@@ -2339,8 +2373,8 @@ func C11(rc *vk.Rec) {
 	rc.Finish()
 
 	phase = "line"
-	e.budget("line", 4, 2, 200, 80)
-	for idx := int64(0); idx < int64(rc.N(2000, 100000)); idx++ {
+	e.budget("line", 3, 1, 80, 30)
+	for idx := int64(0); idx < int64(rc.N(1600, 60000)); idx++ {
 		if rc.SkipCase(phase, idx) {
 			continue
 		}
@@ -2352,8 +2386,8 @@ func C11(rc *vk.Rec) {
 	rc.Finish()
 
 	phase = "tree"
-	e.budget("tree", 6, 3, 300, 120)
-	for idx := int64(0); idx < int64(rc.N(3500, 200000)); idx++ {
+	e.budget("tree", 5, 3, 200, 80)
+	for idx := int64(0); idx < int64(rc.N(3200, 150000)); idx++ {
 		if rc.SkipCase(phase, idx) {
 			continue
 		}
